@@ -287,6 +287,15 @@ Theorem C02_batch_wide_failure_refuted :
 Proof. exact batch_wide_failure_refuted. Qed.
 Print Assumptions C02_batch_wide_failure_refuted.
 
+(* a bind in flight keeps its reservation: an update of the still unbound pod object is ignored for a
+   pod the cache holds in an allocated status -- whatever the update carries, a deletionTimestamp
+   included (seeded mutants C02-r3-1, C02-r9-1) *)
+Theorem C02_update_unbound_keeps_reservation : forall eps c tid deleting st,
+  c_heap c !! tid = Some st -> allocated_status (t_status st) = true ->
+  cache_event eps c (EvUpdateUnbound tid deleting) = c.
+Proof. exact update_unbound_keeps_reservation. Qed.
+Print Assumptions C02_update_unbound_keeps_reservation.
+
 (* the executable form of cinv used by law 115 is sound *)
 Theorem C02_cinv_b_sound : forall eps c, 0 < eps -> cinv_b eps c = true -> cinv eps c.
 Proof. exact cinv_b_sound. Qed.
